@@ -249,3 +249,30 @@ C12 = dict(
     },
 )
 PROPS["C12"] = C12
+
+# --------------------------------------------------------------------------------------------- C09
+_TREE_RULES = [(r"IterMut.*4fold|13generic_array|GenericArray", 34), (r"nodes_to_root", 66), (r"flat_tree|9flat_tree", 45), (r"writer_tree|block_data", 8), (r"increase_cache", 10),
+               (r"create_valueless_proof|upgrade_proof|block_and_seek_proof|seek_proof|seek_from_head|seek_trusted_tree|byte_offset_from_nodes|missing_nodes|verify_tree|verify_upgrade", 45),
+               (r"SigningKey13verifying_key", 34), (r"ed25519_dalek", 120), (r"blake2", 200)]
+def _T(desc, sym, bound, tier="quick", timeout=900, unwind=6):
+    return H(tier, desc, sym, bound, rules=_TREE_RULES, timeout=timeout, unwind=unwind)
+C09 = dict(
+    title="No request or proof from a peer can panic the node",
+    variant="model",
+    patterns=["c09_"],
+    functions=["hypercore::tree::merkle_tree::MerkleTree::{create_valueless_proof,upgrade_proof,additional_upgrade_proof,block_and_seek_proof,seek_proof,seek_from_head,seek_trusted_tree,seek_untrusted_tree,byte_offset_from_nodes,verify_proof,missing_nodes}",
+               "nodes_to_root, normalize_indexed, verify_tree, verify_upgrade, NodeQueue::shift", "flat_tree::Iterator (real dependency code)"],
+    oracle="absence of failed Kani checks (panic!/unwrap/expect, arithmetic overflow, index out of bounds, unwinding assertions = termination within the bound)",
+    outside=["create_valueless_proof / verify_proof as a whole on a populated tree: the harnesses exist (thorough tier) but exhaust 9 GB in this sandbox; the quick tier covers the arithmetic/queue helpers and verify_tree/verify_upgrade on an empty replica", "trees of more than 3 blocks for requests", "numeric fields >= 2^40 (as in the property)", "node lists longer than 2 in arbitrary proofs"],
+    harnesses={
+        "c09_nodes_to_root": _T("nodes_to_root: Ok/Err, no overflow, terminates", "index, nodes, head < 2^40 (head even)", "none"),
+        "c09_normalize_indexed": _T("normalize_indexed incl. right_span of a peer-supplied tree index", "index, nodes < 2^40; block or hash", "none"),
+        "c09_node_queue_shift": _T("NodeQueue::shift x4 with arbitrary expected indices", "0..2 arbitrary nodes + optional extra; 4 expected indices", "queue <= 3"),
+        "c09_verify_upgrade_empty_replica": _T("verify_upgrade of a structurally arbitrary upgrade on an empty replica", "start,length < 2^40; 0..2 nodes, 0..1 additional node (all fields arbitrary); 64 signature bytes; fork", "empty replica", tier="thorough", timeout=1800),
+        "c09_verify_tree_arbitrary": _T("verify_tree of structurally arbitrary block/hash/seek sections", "index < 2^40, value 0..4 bytes, node lists 0..2 arbitrary nodes, seek bytes", "node lists <= 2", tier="thorough", timeout=1800),
+        "c09_req_block_n3": _T("create_valueless_proof(block) on a 3-block tree", "block.index, block.nodes < 2^40", "tree of 3 blocks", tier="thorough", timeout=1800),
+        "c09_req_upgrade_n3": _T("create_valueless_proof(upgrade)", "upgrade.start, upgrade.length < 2^40", "tree of 3 blocks", tier="thorough", timeout=1800),
+        "c09_req_block_upgrade_n3": _T("create_valueless_proof(block, upgrade)", "4 fields < 2^40", "tree of 3 blocks", tier="thorough", timeout=1800),
+    },
+)
+PROPS["C09"] = C09
